@@ -41,6 +41,21 @@ Theorem C02_atomic_lines_threshold :
 Proof. intros. edestruct atomic_lines as (H2 & _ & H3 & _); eauto. Qed.
 Print Assumptions C02_atomic_lines_threshold.
 
+(** Whatever the destination's Write calls RETURN (success, short write, any error - a closed file, a broken
+    pipe, a full disk): the result of a Write is no input of the model, so the atomicity theorem holds for
+    every assignment of results to the labels of the schedule.  In particular an enabled record logged after
+    a failed Write still causes exactly one Write with its complete line. *)
+Theorem C02_write_results_do_not_matter :
+  forall (D R : Type) (line : list D -> R -> list N) (enabled : R -> bool) (grow : N -> N -> N)
+         (f : cflags) (prog : list (list (instr D R))) (sched : list (label * wresult)) (s : state D R),
+  discipline f = true ->
+  rrun D R line enabled grow f (init D R prog) sched = Some s -> finished D R s = true ->
+  Permutation (dest D R s) (expected D R line enabled prog)
+  /\ no_overlap None (map fst sched) = true
+  /\ (forall t, t < length prog -> count_writes t (map fst sched) = length (lines_of D R line enabled (nth t prog []))).
+Proof. intros until s; intros Hd Hr Hf. rewrite rrun_run in Hr. edestruct atomic_lines as (H1 & H2 & H3 & _); eauto. Qed.
+Print Assumptions C02_write_results_do_not_matter.
+
 (** In every reachable state a thread that is inside Write holds the mutex of its handler. *)
 Theorem C02_writer_holds_mu :
   forall (D R : Type) (line : list D -> R -> list N) (enabled : R -> bool) (grow : N -> N -> N)
